@@ -47,7 +47,7 @@ def gen(ctx):
 
 def rand_string(rng, blanks):
     k = rng.randint(1, 3) if blanks else 1
-    parts = [rng.choice(WORDS) for _ in range(k)]
+    parts = [rng.choice(WORDS)] + [rng.choice(WORDS + ["#3", "#", "a#b", "_x", "loop_", "data_y", ";"]) for _ in range(k - 1)]
     s = parts[0]
     for p in parts[1:]:
         s += " " * rng.choice([1, 1, 2, 3]) + p
